@@ -37,7 +37,7 @@ def cursor_update(res, fl):
     return None, None, None
 
 
-@rule("C01-B2", "C01", 6, "bump: the handed-out extent is exactly what the cursor moved over: memory_offset = old cursor, memory_offset + memory_size = new cursor")
+@rule("C01-B2", "C01", 6, "bump: the handed-out extent is exactly what the cursor moved over: memory_offset = old cursor, memory_offset + memory_size = new cursor", also=("C04",))
 def b2(ctx):
     for fl in FLAVOURS:
         for name in ("alloc_bytes_in", "alloc_aligned_bytes_in", "alloc_in"):
